@@ -488,3 +488,181 @@ def _first_leaf_child(ex, st):
 
 REG.add('sqlparse.engine.grouping._is_delimiter', 'first child', is_delimiter_first)
 DELIMITER_CASES.append(('sqlparse.engine.grouping._is_delimiter', 'first child'))
+
+
+# --------------------------------------------------------------------------------- group_where on explicit shapes (C13)
+# (rename-robust companions of the invariant-based cases above: no loop ordinal, no local name)
+
+def _where_shape(kind):
+    def mk(ex, st):
+        from contracts.sql import _mk_leaf, _mk_node, _mk_argument, _ws1
+        W = ex.W
+        T, sql = W.T, W.sql
+        kw = lambda word, nm, tt=T.Keyword: _mk_leaf(ex, st, None, nm, (tt,), normalized=word)   # noqa: E731
+        sel, a = kw('SELECT', 'kw_select', T.Keyword.DML), _mk_argument(ex, st, 'item')
+        frm, t = kw('FROM', 'kw_from'), _mk_argument(ex, st, 'table')
+        whr, c = kw('WHERE', 'kw_where'), _mk_argument(ex, st, 'cond')
+        w = [_ws1(ex, st, 'ws%d' % i) for i in range(8)]
+        gh = {'WHERE': whr, 'COND': c, 'W5': w[5], 'W6': w[6]}
+        head = [sel, w[0], a, w[1], frm, w[2], t, w[3]]
+        if kind == 'closing keyword':
+            close = kw(sorted(x for x in sql.Where.M_CLOSE[1])[0], 'kw_close')
+            # any of the closing keywords of the property
+            nz = st.objs[close.oid]['normalized'] = SStr(fresh('close_norm', z3.StringSort()))
+            st.assume(z3.Or(*[nz.z == z3.StringVal(x) for x in ('ORDER BY', 'GROUP BY', 'LIMIT', 'UNION', 'EXCEPT', 'HAVING',
+                                                             'RETURNING', 'INTO')]))
+            x = _mk_argument(ex, st, 'after')
+            gh.update({'CLOSE': close})
+            items = head + [whr, w[4], c, w[5], close, w[6], x]
+            node = _mk_node(ex, st, sql.Statement, 'tlist', items)
+        elif kind == 'end of statement':
+            items = head + [whr, w[4], c, w[5]]
+            node = _mk_node(ex, st, sql.Statement, 'tlist', items)
+        else:   # inside a parenthesis
+            lp = _mk_leaf(ex, st, None, 'lp', (T.Punctuation,), value='(')
+            rp = _mk_leaf(ex, st, None, 'rp', (T.Punctuation,), value=')')
+            gh.update({'RP': rp})
+            node = _mk_node(ex, st, sql.Parenthesis, 'tlist', [lp] + head + [whr, w[4], c, w[5], rp])
+        st.ghost.update(gh)
+        return node
+    return mk
+
+
+WHERE_SHAPE_CASES = []
+for _kind, _ens in (
+        ('closing keyword', ['len(tlist.tokens) == 12', 'isinstance(tlist.tokens[8], sql.Where)', 'len(tlist.tokens[8].tokens) == 4',
+                             'tlist.tokens[8].tokens[0] is WHERE', 'tlist.tokens[8].tokens[2] is COND',
+                             'tlist.tokens[8].tokens[3] is W5', 'tlist.tokens[9] is CLOSE']),
+        ('end of statement', ['len(tlist.tokens) == 9', 'isinstance(tlist.tokens[8], sql.Where)', 'len(tlist.tokens[8].tokens) == 4',
+                              'tlist.tokens[8].tokens[0] is WHERE', 'tlist.tokens[8].tokens[2] is COND']),
+        ('inside a parenthesis', ['len(tlist.tokens) == 11', 'isinstance(tlist.tokens[9], sql.Where)',
+                                  'len(tlist.tokens[9].tokens) == 4', 'tlist.tokens[9].tokens[0] is WHERE',
+                                  'tlist.tokens[9].tokens[2] is COND', 'tlist.tokens[10] is RP'])):
+    _ns = {'__doc__': 'C13 "the Where node spans from WHERE up to, not including, the next closing keyword at the same level, or '
+                      'else to the end of the enclosing parenthesis or statement": SELECT item FROM table WHERE cond, %s; the '
+                      'Where node is exactly [WHERE ws cond ws] and what follows it stays a sibling' % _kind,
+           'exec_class': HeapExec, 'params': {'tlist': _where_shape(_kind)}, 'requires': [], 'ensures': _ens, 'raises': [],
+           'serves': ['C13']}
+    REG.add('sqlparse.engine.grouping.group_where', 'shape: ' + _kind, type('group_where_shape', (), _ns))
+    WHERE_SHAPE_CASES.append(('sqlparse.engine.grouping.group_where', 'shape: ' + _kind))
+
+
+# --------------------------------------------------------------------------------- the joiner passes on explicit shapes (C12, C13)
+# On a node with an explicit children list `_group` and `_is_delimiter` are executed in place (every loop runs over known
+# elements), so a shape case of a pass decides WHICH tokens it groups - the part that the generic closure contract of
+# `_group` leaves open.
+
+def _inline_on_shapes(q, argpos=0):
+    prev = REG.get(q)
+
+    class _M:
+        @staticmethod
+        def model(ex, self_val, args, kw, st):
+            from pyvc.models import call_repo_inline, repo_fn_node
+            tl = args[argpos] if len(args) > argpos else kw.get('tlist')
+            if isinstance(tl, Rec) and st.objs[tl.oid].get('__shape__') is True and getattr(ex.top_contract, 'shape_case', False):
+                return call_repo_inline(ex, q, repo_fn_node(q), self_val, args, kw, st)
+            return prev.model(ex, self_val, args, kw, st)
+    REG[q] = _M
+
+
+_inline_on_shapes('sqlparse.engine.grouping._group')
+_inline_on_shapes('sqlparse.engine.grouping._is_delimiter')
+
+
+def _ident(ex, st, name, parts):
+    """Identifier node with explicit children"""
+    from contracts.sql import _mk_node
+    return lambda g: _mk_node(ex, st, ex.W.sql.Identifier, name, parts, g)
+
+
+def _stmt_around(ex, st, middle, gh):
+    """SELECT ws <middle...> ws FROM ws Identifier(t)  as a Statement with explicit children"""
+    from contracts.sql import _mk_leaf, _mk_node, _ws1
+    T, sql = ex.W.T, ex.W.sql
+    sel = _mk_leaf(ex, st, None, 'kw_select', (T.Keyword.DML,), normalized='SELECT')
+    frm = _mk_leaf(ex, st, None, 'kw_from', (T.Keyword,), normalized='FROM')
+    tn = _mk_leaf(ex, st, None, 'tname', (T.Name,), name_leaf=True)
+    gh.update({'SEL': sel, 'FROM': frm})
+    st.ghost.update(gh)
+    return _mk_node(ex, st, sql.Statement, 'tlist',
+                    [sel, _ws1(ex, st, 'wsA')] + middle + [_ws1(ex, st, 'wsB'), frm, _ws1(ex, st, 'wsC'), _ident(ex, st, 'tident', [tn])])
+
+
+def _name(ex, st, nm):
+    from contracts.sql import _mk_leaf
+    return _mk_leaf(ex, st, None, nm, (ex.W.T.Name, ex.W.T.String.Symbol), name_leaf=True)
+
+
+def _shape_period(ex, st):
+    from contracts.sql import _mk_leaf
+    q_, n_ = _name(ex, st, 'qual'), _name(ex, st, 'name')
+    dot = _mk_leaf(ex, st, None, 'dot', (ex.W.T.Punctuation,), value='.')
+    return _stmt_around(ex, st, [q_, dot, n_], {'Q': q_, 'DOT': dot, 'N': n_})
+
+
+def _shape_identifier(ex, st):
+    n_ = _name(ex, st, 'name')
+    return _stmt_around(ex, st, [n_], {'N': n_})
+
+
+def _shape_as(ex, st):
+    from contracts.sql import _mk_leaf, _ws1
+    n_, a_ = _name(ex, st, 'name'), _name(ex, st, 'alias')
+    askw = _mk_leaf(ex, st, None, 'kw_as', (ex.W.T.Keyword,), normalized='AS')
+    w1, w2 = _ws1(ex, st, 'ws1'), _ws1(ex, st, 'ws2')
+    x = _ident(ex, st, 'xident', [n_])
+    y = _ident(ex, st, 'yident', [a_])
+    gh = {'N': n_, 'A': a_, 'AS': askw, 'W1': w1, 'W2': w2}
+    return _stmt_around(ex, st, [x, w1, askw, w2, y], gh)
+
+
+def _shape_aliased(ex, st):
+    from contracts.sql import _ws1
+    n_, a_ = _name(ex, st, 'name'), _name(ex, st, 'alias')
+    w1 = _ws1(ex, st, 'ws1')
+    gh = {'N': n_, 'A': a_, 'W1': w1}
+    return _stmt_around(ex, st, [_ident(ex, st, 'xident', [n_]), w1, _ident(ex, st, 'yident', [a_])], gh)
+
+
+def _shape_idlist(ex, st):
+    from contracts.sql import _mk_leaf, _ws1
+    n1, n2, n3 = _name(ex, st, 'n1'), _name(ex, st, 'n2'), _name(ex, st, 'n3')
+    c1 = _mk_leaf(ex, st, None, 'comma1', (ex.W.T.Punctuation,), value=',')
+    c2 = _mk_leaf(ex, st, None, 'comma2', (ex.W.T.Punctuation,), value=',')
+    w1, w2 = _ws1(ex, st, 'ws1'), _ws1(ex, st, 'ws2')
+    gh = {'N1': n1, 'N2': n2, 'N3': n3, 'C1': c1, 'C2': c2}
+    return _stmt_around(ex, st, [_ident(ex, st, 'i1', [n1]), c1, w1, _ident(ex, st, 'i2', [n2]), c2, w2,
+                                 _ident(ex, st, 'i3', [n3])], gh)
+
+
+JOINER_SHAPE_CASES = []
+for _pass, _mk, _what, _ens in (
+    ('group_period', _shape_period, 'qualifier . name',
+     ['len(tlist.tokens) == 7', 'isinstance(tlist.tokens[2], sql.Identifier)', 'len(tlist.tokens[2].tokens) == 3',
+      'tlist.tokens[2].tokens[0] is Q', 'tlist.tokens[2].tokens[1] is DOT', 'tlist.tokens[2].tokens[2] is N',
+      'tlist.tokens[4] is FROM']),
+    ('group_identifier', _shape_identifier, 'name',
+     ['len(tlist.tokens) == 7', 'isinstance(tlist.tokens[2], sql.Identifier)', 'len(tlist.tokens[2].tokens) == 1',
+      'tlist.tokens[2].tokens[0] is N', 'tlist.tokens[4] is FROM']),
+    ('group_as', _shape_as, 'name AS alias',
+     ['len(tlist.tokens) == 7', 'isinstance(tlist.tokens[2], sql.Identifier)', 'len(tlist.tokens[2].tokens) == 5',
+      'tlist.tokens[2].tokens[0] is N', 'tlist.tokens[2].tokens[2] is AS',
+      'isinstance(tlist.tokens[2].tokens[4], sql.Identifier)', 'tlist.tokens[2].tokens[4].tokens[0] is A',
+      'tlist.tokens[4] is FROM']),
+    ('group_aliased', _shape_aliased, 'name alias',
+     ['len(tlist.tokens) == 7', 'isinstance(tlist.tokens[2], sql.Identifier)', 'len(tlist.tokens[2].tokens) == 3',
+      'tlist.tokens[2].tokens[0] is N', 'tlist.tokens[2].tokens[1] is W1',
+      'isinstance(tlist.tokens[2].tokens[2], sql.Identifier)', 'tlist.tokens[2].tokens[2].tokens[0] is A',
+      'tlist.tokens[4] is FROM']),
+    ('group_identifier_list', _shape_idlist, 'a, b, c',
+     ['len(tlist.tokens) == 7', 'isinstance(tlist.tokens[2], sql.IdentifierList)', 'len(tlist.tokens[2].tokens) == 7',
+      'tlist.tokens[2].tokens[0].tokens[0] is N1', 'tlist.tokens[2].tokens[1] is C1',
+      'tlist.tokens[2].tokens[3].tokens[0] is N2', 'tlist.tokens[2].tokens[6].tokens[0] is N3', 'tlist.tokens[4] is FROM']),
+):
+    _ns = {'__doc__': 'the pass %s on  SELECT %s FROM t  (names and quoting arbitrary): what it groups is exactly the written '
+                      'construct, the neighbours stay siblings' % (_pass, _what),
+           'exec_class': HeapExec, 'params': {'tlist': _mk}, 'requires': [], 'ensures': _ens, 'raises': [],
+           'shape_case': True, 'serves': ['C12', 'C13']}
+    REG.add('sqlparse.engine.grouping.' + _pass, 'shape: ' + _what, type('joiner_shape_' + _pass, (), _ns))
+    JOINER_SHAPE_CASES.append(('sqlparse.engine.grouping.' + _pass, 'shape: ' + _what))
